@@ -45,7 +45,7 @@ def suite(wt):
 
 def main():
     args = [a for a in sys.argv[1:] if not a.startswith("--")]
-    pid, src, wt, sid = args[0], Path(args[1]), Path(args[2]), args[3]
+    pid, src, wt, sid = args[0], Path(args[1]).resolve(), Path(args[2]).resolve(), args[3]
     tier = "thorough" if "--thorough" in sys.argv else "quick"
     env_wt = dict(os.environ, PYTHONPATH=str(wt / "src"), PYTHONDONTWRITEBYTECODE="1")
     meta = {"id": sid, "property": pid, "ran_at": time.strftime("%Y-%m-%d %H:%M:%S"), "steps": {}}
